@@ -504,3 +504,428 @@ theorem handleHandshake_spec (s : Srv) (c : Nat) (ty : Ty) (req : Req) :
       obtain ⟨p1, p2, p3, p4⟩ := m5 n hres'
       rw [r11, r8]
       exact ⟨by rw [← e15]; exact p1, p2, p3, p4⟩
+
+/-! ### one event -/
+
+/-- event-level justification (the model-side twin of `Spec.justified`) -/
+def Jm (s : Srv) (e : Event) (r : RespObs) (n' c x : Nat) : Prop :=
+  s.env.bl (s.ipOf c) = false ∧ s.banned (s.ipOf c) = false ∧
+  ((∃ ty, e = .fc c ty ∧ x = s.nClients ∧ n' = x + 1 ∧ (r = .new x ∨ r = .none)) ∨
+   (∃ ty key nr n, e = .hs c ty (.idx x) (.hmac key nr) ∧ x < s.nClients ∧ flagsOK s.now (s.env.cl x) = true ∧
+      key = x ∧ s.env.resolveN nr = some n ∧ pend (s.ctl c) = some n ∧ (r = .ok ∨ r = .none)))
+
+structure StepSpec (s : Srv) (e : Event) (s' : Srv) (r : RespObs) : Prop where
+  frame : s'.now = s.now ∧ s'.nConns = s.nConns ∧ s'.ipOf = s.ipOf ∧ s'.nIps = s.nIps ∧ s'.env = s.env
+  ncl : s.nClients ≤ s'.nClients
+  nonce : s.nextNonce ≤ s'.nextNonce
+  auth : ∀ c', pairOf (s'.ctl c') = pairOf (s.ctl c') ∨ s'.ctl c' = none ∨
+          (e.conn? = some c' ∧ ∃ x, pairOf (s'.ctl c') = (true, some x) ∧ Jm s e r s'.nClients c' x)
+  reg : ∀ y c', s'.reg y = some c' → s.reg y = some c' ∨
+          (e.conn? = some c' ∧ pairOf (s'.ctl c') = (true, some y) ∧ r ≠ .fail ∧ r ≠ .na ∧ c' < s.nConns)
+  rok : r = .ok → ∃ c ty k rr, e = .hs c ty (.idx k) rr ∧ c < s.nConns ∧ pend (s'.ctl c) = none ∧
+          pairOf (s'.ctl c) = (true, some k) ∧ Jm s e r s'.nClients c k
+  rnew : ∀ x, r = .new x → ∃ c ty, e = .fc c ty ∧ c < s.nConns ∧ pairOf (s'.ctl c) = (true, some x) ∧
+          Jm s e r s'.nClients c x
+  pending : ∀ c', pend (s'.ctl c') = pend (s.ctl c') ∨ pend (s'.ctl c') = none ∨
+          (e.conn? = some c' ∧ pend (s'.ctl c') = some s.nextNonce ∧ s'.nextNonce = s.nextNonce + 1 ∧
+            (r = .ch s.nextNonce ∨ r = .none))
+  rch : ∀ n, r = .ch n → n = s.nextNonce ∧ s'.nextNonce = n + 1 ∧
+          ∃ c ty k rr, e = .hs c ty k rr ∧ pend (s'.ctl c) = some n
+  ban : ∀ ip, e ≠ .unban ip → s.banned ip = true → s'.banned ip = true
+  banev : ∀ ip, e = .ban ip → s'.banned ip = true
+
+theorem StepSpec.of_same {s : Srv} {e : Event} {s' : Srv} {r : RespObs}
+    (hf : s'.now = s.now ∧ s'.nConns = s.nConns ∧ s'.ipOf = s.ipOf ∧ s'.nIps = s.nIps ∧ s'.env = s.env)
+    (hc : s'.ctl = s.ctl) (hr : s'.reg = s.reg) (hn : s'.nClients = s.nClients) (hx : s'.nextNonce = s.nextNonce)
+    (hr' : r = .na ∨ r = .none) (hb : ∀ ip, e ≠ .unban ip → s.banned ip = true → s'.banned ip = true)
+    (hbe : ∀ ip, e = .ban ip → s'.banned ip = true) : StepSpec s e s' r := by
+  refine ⟨hf, by omega, by omega, fun c' => Or.inl (by rw [hc]), fun y c' h => Or.inl (by rw [hr] at h; exact h), ?_, ?_,
+    fun c' => Or.inl (by rw [hc]), ?_, hb, hbe⟩
+  · intro h; rcases hr' with h' | h' <;> rw [h'] at h <;> cases h
+  · intro x h; rcases hr' with h' | h' <;> rw [h'] at h <;> cases h
+  · intro n h; rcases hr' with h' | h' <;> rw [h'] at h <;> cases h
+
+theorem StepSpec.of_HSpec {s : Srv} {e : Event} {c : Nat} {req : Req} {s' : Srv} {r : RespObs}
+    (h : HSpec s c req s' r) (hconn : e.conn? = some c) (_hnu : ∀ ip, e ≠ .unban ip) (hnb : ∀ ip, e ≠ .ban ip)
+    (hJ : ∀ n' x, Jr s c req r n' x → Jm s e r n' c x)
+    (hok : r = .ok → ∀ x, req.k = .idx x → ∃ ty rr, e = .hs c ty (.idx x) rr)
+    (hnew : ∀ x, r = .new x → req.first = true → ∃ ty, e = .fc c ty)
+    (hch : ∀ n, r = .ch n → req.first = false → ∃ ty k rr, e = .hs c ty k rr) : StepSpec s e s' r := by
+  refine ⟨h.frame, h.ncl, h.nonce, ?_, ?_, ?_, ?_, ?_, ?_, fun ip _ hb => h.banmono ip hb, fun ip he => absurd he (hnb ip)⟩
+  · intro c'
+    rcases h.auth c' with a | a | ⟨a, x, b, d⟩
+    · exact Or.inl a
+    · exact Or.inr (Or.inl a)
+    · subst a; exact Or.inr (Or.inr ⟨hconn, x, b, hJ _ _ d⟩)
+  · intro y c' hy
+    rcases h.reg y c' hy with a | ⟨a, b, d, f⟩
+    · exact Or.inl a
+    · subst a; exact Or.inr ⟨hconn, b, d, h.rna, f⟩
+  · intro hr
+    obtain ⟨a, b, x, d, f⟩ := h.rok hr
+    have f' := f
+    obtain ⟨_, _, f1 | f2⟩ := f
+    · obtain ⟨_, _, _, g⟩ := f1
+      rcases g with g | g <;> rw [hr] at g <;> cases g
+    · obtain ⟨_, hk, _⟩ := f2
+      obtain ⟨ty, rr, he⟩ := hok hr x hk
+      exact ⟨c, ty, x, rr, he, a, b, d, hJ _ _ f'⟩
+  · intro x hr
+    obtain ⟨a, b, d⟩ := h.rnew x hr
+    have d' := d
+    obtain ⟨_, _, f1 | f2⟩ := d
+    · obtain ⟨ty, he⟩ := hnew x hr f1.1
+      exact ⟨c, ty, he, a, b, hJ _ _ d'⟩
+    · obtain ⟨_, _, _, _, n, _, _, g⟩ := f2
+      rcases g with g | g <;> rw [hr] at g <;> cases g
+  · intro c'
+    rcases h.pending c' with a | a | ⟨a, b⟩
+    · exact Or.inl a
+    · exact Or.inr (Or.inl a)
+    · subst a; exact Or.inr (Or.inr ⟨hconn, b⟩)
+  · intro n hr
+    obtain ⟨a, b, d, f⟩ := h.rch n hr
+    obtain ⟨ty, k, rr, he⟩ := hch n hr f
+    exact ⟨a, d, c, ty, k, rr, he, b⟩
+
+theorem resolve_hmac {g : Env} {rr : RespRef} {x n : Nat} (h : g.resolve rr = .hmac x (some n)) :
+    ∃ nr, rr = .hmac x nr ∧ g.resolveN nr = some n := by
+  cases rr with
+  | none => simp [Env.resolve] at h
+  | junk => simp [Env.resolve] at h
+  | hmac key nr =>
+    simp only [Env.resolve, Resp.hmac.injEq] at h
+    exact ⟨nr, by rw [h.1], h.2⟩
+
+theorem stepCore_spec (s : Srv) (e : Event) : StepSpec s e (stepCore s e).1 (stepCore s e).2 := by
+  have fr : s.now = s.now ∧ s.nConns = s.nConns ∧ s.ipOf = s.ipOf ∧ s.nIps = s.nIps ∧ s.env = s.env :=
+    ⟨rfl, rfl, rfl, rfl, rfl⟩
+  cases e with
+  | fc c ty =>
+    refine StepSpec.of_HSpec (handleHandshake_spec s c ty _) rfl (fun _ => by simp) (fun _ => by simp) ?_ ?_ ?_ ?_
+    · intro n' x hj
+      obtain ⟨a, b, d | d⟩ := hj
+      · exact ⟨a, b, Or.inl ⟨ty, rfl, d.2⟩⟩
+      · exact absurd d.1 (by simp)
+    · intro _ x hk; simp at hk
+    · intro x _ _; exact ⟨ty, rfl⟩
+    · intro n _ hf; simp at hf
+  | hs c ty k rr =>
+    refine StepSpec.of_HSpec (handleHandshake_spec s c ty _) rfl (fun _ => by simp) (fun _ => by simp) ?_ ?_ ?_ ?_
+    · intro n' x hj
+      obtain ⟨a, b, d | d⟩ := hj
+      · exact absurd d.1 (by simp)
+      · obtain ⟨_, hk, hlt, hfl, n, hresp, hp, hr⟩ := d
+        simp only at hk hresp
+        obtain ⟨nr, hrr, hres⟩ := resolve_hmac hresp
+        subst hk hrr
+        exact ⟨a, b, Or.inr ⟨ty, x, nr, n, rfl, hlt, hfl, rfl, hres, hp, hr⟩⟩
+    · intro _ x hk
+      simp only at hk
+      subst hk
+      exact ⟨ty, rr, rfl⟩
+    · intro x _ hf; simp at hf
+    · intro n _ _; exact ⟨ty, k, rr, rfl⟩
+  | mal c => exact StepSpec.of_same fr rfl rfl rfl rfl (Or.inr rfl) (fun _ _ h => h) (fun _ h => by cases h)
+  | ban ip =>
+    refine StepSpec.of_same fr rfl rfl rfl rfl (Or.inl rfl) ?_ ?_
+    · intro ip' _ h; simp only [stepCore, upd_apply]; split <;> simp_all
+    · intro ip' h; cases h; simp [stepCore]
+  | unban ip =>
+    refine StepSpec.of_same fr rfl rfl rfl rfl (Or.inl rfl) ?_ (fun _ h => by cases h)
+    intro ip' hne h
+    have : ip' ≠ ip := fun h' => hne (by rw [h'])
+    simp [stepCore, upd_other _ _ _ _ this, h]
+  | bl ip => exact StepSpec.of_same fr rfl rfl rfl rfl (Or.inl rfl) (fun _ _ h => h) (fun _ h => by cases h)
+  | unbl ip => exact StepSpec.of_same fr rfl rfl rfl rfl (Or.inl rfl) (fun _ _ h => h) (fun _ h => by cases h)
+  | refill ip => exact StepSpec.of_same fr rfl rfl rfl rfl (Or.inl rfl) (fun _ _ h => h) (fun _ h => by cases h)
+  | exp k => exact StepSpec.of_same fr rfl rfl rfl rfl (Or.inl rfl) (fun _ _ h => h) (fun _ h => by cases h)
+  | del k => exact StepSpec.of_same fr rfl rfl rfl rfl (Or.inl rfl) (fun _ _ h => h) (fun _ h => by cases h)
+  | strip k => exact StepSpec.of_same fr rfl rfl rfl rfl (Or.inl rfl) (fun _ _ h => h) (fun _ h => by cases h)
+
+/-! ### the invariant -/
+
+structure Inv (s : Srv) : Prop where
+  /-- a pending challenge was issued -/
+  i1 : ∀ c n, pend (s.ctl c) = some n → n < s.nextNonce
+  /-- so was every challenge a client received -/
+  i2 : ∀ d n, (s.env.lastCh d = some n ∨ s.env.prevCh d = some n) → n < s.nextNonce
+  /-- a pending challenge of `c`, if any client received it at all, is the latest one received on `c` -/
+  i3 : ∀ c n, pend (s.ctl c) = some n → (∀ d, s.env.lastCh d = some n → d = c) ∧ (∀ d, s.env.prevCh d ≠ some n)
+  /-- a pending challenge was never accepted before -/
+  i4 : ∀ c n, pend (s.ctl c) = some n → n ∉ s.env.usedSeen
+  /-- no nonce is pending on two connections -/
+  i5 : ∀ c c' n, pend (s.ctl c) = some n → pend (s.ctl c') = some n → c = c'
+  /-- an explicitly banned address is banned -/
+  i6 : ∀ ip, s.env.xban ip = true → s.banned ip = true
+  /-- accepted nonces were issued -/
+  i8 : ∀ n, n ∈ s.env.usedSeen → n < s.nextNonce
+
+theorem track_cases (g : Env) (now nc : Nat) (e : Event) (r : RespObs) :
+    (∃ c ty k rr n, e = .hs c ty k rr ∧ r = .ch n ∧ (g.track now nc e r).lastCh = upd g.lastCh c (some n) ∧
+      (g.track now nc e r).prevCh = upd g.prevCh c (g.lastCh c) ∧ (g.track now nc e r).usedSeen = g.usedSeen) ∨
+    (∃ c ty k key nr n, e = .hs c ty k (.hmac key nr) ∧ r = .ok ∧ g.resolveN nr = some n ∧
+      (g.track now nc e r).lastCh = g.lastCh ∧ (g.track now nc e r).prevCh = g.prevCh ∧
+      (g.track now nc e r).usedSeen = n :: g.usedSeen) ∨
+    ((g.track now nc e r).lastCh = g.lastCh ∧ (g.track now nc e r).prevCh = g.prevCh ∧
+      (g.track now nc e r).usedSeen = g.usedSeen) := by
+  cases e with
+  | hs c ty k rr =>
+    cases r with
+    | ch n => exact Or.inl ⟨c, ty, k, rr, n, rfl, rfl, rfl, rfl, rfl⟩
+    | ok =>
+      cases rr with
+      | none => exact Or.inr (Or.inr ⟨rfl, rfl, rfl⟩)
+      | junk => exact Or.inr (Or.inr ⟨rfl, rfl, rfl⟩)
+      | hmac key nr =>
+        cases h : g.resolveN nr with
+        | none => right; right; simp [Env.track, Env.resolve, h]
+        | some n =>
+          right; left
+          exact ⟨c, ty, k, key, nr, n, rfl, rfl, h, by simp [Env.track, Env.resolve, h], by simp [Env.track, Env.resolve, h],
+            by simp [Env.track, Env.resolve, h]⟩
+    | new x => exact Or.inr (Or.inr ⟨rfl, rfl, rfl⟩)
+    | fail => exact Or.inr (Or.inr ⟨rfl, rfl, rfl⟩)
+    | none => exact Or.inr (Or.inr ⟨rfl, rfl, rfl⟩)
+    | na => exact Or.inr (Or.inr ⟨rfl, rfl, rfl⟩)
+  | fc c ty => exact Or.inr (Or.inr ⟨rfl, rfl, rfl⟩)
+  | mal c => exact Or.inr (Or.inr ⟨rfl, rfl, rfl⟩)
+  | ban ip => exact Or.inr (Or.inr ⟨rfl, rfl, rfl⟩)
+  | unban ip => exact Or.inr (Or.inr ⟨rfl, rfl, rfl⟩)
+  | bl ip => exact Or.inr (Or.inr ⟨rfl, rfl, rfl⟩)
+  | unbl ip => exact Or.inr (Or.inr ⟨rfl, rfl, rfl⟩)
+  | refill ip => exact Or.inr (Or.inr ⟨rfl, rfl, rfl⟩)
+  | exp k => right; right; simp only [Env.track]; split <;> exact ⟨rfl, rfl, rfl⟩
+  | del k => right; right; simp only [Env.track]; split <;> exact ⟨rfl, rfl, rfl⟩
+  | strip k => right; right; simp only [Env.track]; split <;> exact ⟨rfl, rfl, rfl⟩
+
+theorem track_xban (g : Env) (now nc : Nat) (e : Event) (r : RespObs) (ip : Nat)
+    (h : (g.track now nc e r).xban ip = true) : e = .ban ip ∨ (g.xban ip = true ∧ e ≠ .unban ip) := by
+  cases e with
+  | hs c ty k rr =>
+    right
+    refine ⟨?_, by simp⟩
+    cases r with
+    | ok =>
+      cases rr with
+      | hmac key nr => cases hn : g.resolveN nr <;> simpa [Env.track, Env.resolve, hn] using h
+      | none => exact h
+      | junk => exact h
+    | ch n => exact h
+    | new x => exact h
+    | fail => exact h
+    | none => exact h
+    | na => exact h
+  | fc c ty => exact Or.inr ⟨h, by simp⟩
+  | mal c => exact Or.inr ⟨h, by simp⟩
+  | ban ip' =>
+    simp only [Env.track, upd_apply] at h
+    split at h
+    · rename_i hh; left; rw [hh]
+    · exact Or.inr ⟨h, by simp⟩
+  | unban ip' =>
+    simp only [Env.track, upd_apply] at h
+    split at h
+    · cases h
+    · rename_i hh; exact Or.inr ⟨h, by simpa using fun h' => hh h'.symm⟩
+  | bl ip' => exact Or.inr ⟨h, by simp⟩
+  | unbl ip' => exact Or.inr ⟨h, by simp⟩
+  | refill ip' => exact Or.inr ⟨h, by simp⟩
+  | exp k => right; refine ⟨?_, by simp⟩; simp only [Env.track] at h; split at h <;> exact h
+  | del k => right; refine ⟨?_, by simp⟩; simp only [Env.track] at h; split at h <;> exact h
+  | strip k => right; refine ⟨?_, by simp⟩; simp only [Env.track] at h; split at h <;> exact h
+
+theorem step_fields (s : Srv) (e : Event) :
+    (step s e).1.ctl = (stepCore s e).1.ctl ∧ (step s e).1.nextNonce = (stepCore s e).1.nextNonce ∧
+    (step s e).1.banned = (stepCore s e).1.banned ∧ (step s e).1.reg = (stepCore s e).1.reg ∧
+    (step s e).1.nClients = (stepCore s e).1.nClients ∧ (step s e).1.nConns = (stepCore s e).1.nConns ∧
+    (step s e).1.nIps = (stepCore s e).1.nIps ∧ (step s e).1.now = (stepCore s e).1.now ∧
+    (step s e).1.ipOf = (stepCore s e).1.ipOf ∧
+    (step s e).1.env = s.env.track s.now s.nClients e (stepCore s e).2 ∧ (step s e).2 = (stepCore s e).2 :=
+  ⟨rfl, rfl, rfl, rfl, rfl, rfl, rfl, rfl, rfl, rfl, rfl⟩
+
+theorem Inv.preserved {s : Srv} (I : Inv s) (e : Event) : Inv (Tunnox.C03.step s e).1 := by
+  obtain ⟨q1, q2, q3, _, _, _, _, _, _, q10, _⟩ := step_fields s e
+  have sp := stepCore_spec s e
+  generalize (stepCore s e).1 = s' at *
+  generalize (stepCore s e).2 = r at *
+  generalize hs'' : (Tunnox.C03.step s e).1 = s'' at *
+  -- pendings: old, gone, or the fresh nonce on the event's connection
+  have hp : ∀ c m, pend (s''.ctl c) = some m →
+      (pend (s.ctl c) = some m) ∨ (e.conn? = some c ∧ m = s.nextNonce ∧ s'.nextNonce = s.nextNonce + 1 ∧
+        (r = .ch s.nextNonce ∨ r = .none)) := by
+    intro c m h
+    rw [q1] at h
+    rcases sp.pending c with a | a | ⟨a, b, d, f⟩
+    · left; rw [← a]; exact h
+    · rw [a] at h; cases h
+    · right; rw [b] at h; exact ⟨a, by simpa using h.symm, d, f⟩
+  have hn := sp.nonce
+  have g1 : ∀ c n, pend (s''.ctl c) = some n → n < s''.nextNonce := by
+    intro c n h
+    rw [q2]
+    rcases hp c n h with a | ⟨_, b, d, _⟩
+    · have := I.i1 c n a; omega
+    · omega
+  have g5 : ∀ c c' n, pend (s''.ctl c) = some n → pend (s''.ctl c') = some n → c = c' := by
+    intro c c' n h h'
+    rcases hp c n h with a | ⟨a1, a2, _, _⟩ <;> rcases hp c' n h' with b | ⟨b1, b2, _, _⟩
+    · exact I.i5 c c' n a b
+    · have := I.i1 c n a; omega
+    · have := I.i1 c' n b; omega
+    · rw [a1] at b1; exact Option.some.inj b1
+  have g6 : ∀ ip, s''.env.xban ip = true → s''.banned ip = true := by
+    intro ip h
+    rw [q10] at h
+    rw [q3]
+    rcases track_xban _ _ _ _ _ _ h with a | ⟨a, b⟩
+    · exact sp.banev ip a
+    · exact sp.ban ip b (I.i6 ip a)
+  rcases track_cases s.env s.now s.nClients e r with ⟨c, ty, k, rr, n, he, hr, t1, t2, t3⟩ |
+      ⟨c, ty, k, key, nr, n, he, hr, hres, t1, t2, t3⟩ | ⟨t1, t2, t3⟩
+  · -- a challenge was delivered on `c`
+    obtain ⟨hn0, hn1, c0, ty0, k0, rr0, he0, hpc⟩ := sp.rch n hr
+    rw [he] at he0
+    simp only [Event.hs.injEq] at he0
+    obtain ⟨hc0, _, _, _⟩ := he0
+    subst hc0
+    have hconn : ∀ c1, e.conn? = some c1 → c1 = c := by
+      intro c1 h; rw [he] at h; simp only [Event.conn?, Option.some.injEq] at h; exact h.symm
+    have hl : ∀ d, s''.env.lastCh d = if d = c then some n else s.env.lastCh d := by
+      intro d; rw [q10, t1]; rfl
+    have hv : ∀ d, s''.env.prevCh d = if d = c then s.env.lastCh c else s.env.prevCh d := by
+      intro d; rw [q10, t2]; rfl
+    refine ⟨g1, ?_, ?_, ?_, g5, g6, ?_⟩
+    · intro d m h
+      rw [q2, hn1]
+      rw [hl, hv] at h
+      by_cases hd : d = c
+      · simp only [hd, if_true] at h
+        rcases h with h | h
+        · have : n = m := by simpa using h
+          omega
+        · have := I.i2 c m (Or.inl h); omega
+      · simp only [hd, if_false] at h
+        have := I.i2 d m h; omega
+    · intro c1 m h
+      rcases hp c1 m h with a | ⟨a1, a2, _, _⟩
+      · have hm := I.i1 c1 m a
+        obtain ⟨i3a, i3b⟩ := I.i3 c1 m a
+        constructor
+        · intro d hd
+          rw [hl] at hd
+          by_cases hdc : d = c
+          · simp only [hdc, if_true] at hd
+            have : n = m := by simpa using hd
+            omega
+          · simp only [hdc, if_false] at hd
+            exact i3a d hd
+        · intro d hd
+          rw [hv] at hd
+          by_cases hdc : d = c
+          · simp only [hdc, if_true] at hd
+            have hcc := i3a c hd
+            -- then c1 = c, but the pending of c is now the fresh nonce
+            subst hcc
+            rw [q1, hpc] at h
+            have : n = m := by simpa using h
+            omega
+          · simp only [hdc, if_false] at hd
+            exact i3b d hd
+      · have hc1 := hconn c1 a1
+        subst hc1
+        subst a2
+        constructor
+        · intro d hd
+          rw [hl] at hd
+          by_cases hdc : d = c1
+          · exact hdc
+          · simp only [hdc, if_false] at hd
+            have := I.i2 d _ (Or.inl hd); omega
+        · intro d hd
+          rw [hv] at hd
+          by_cases hdc : d = c1
+          · simp only [hdc, if_true] at hd
+            have := I.i2 c1 _ (Or.inl hd); omega
+          · simp only [hdc, if_false] at hd
+            have := I.i2 d _ (Or.inr hd); omega
+    · intro c1 m h hmem
+      rw [q10, t3] at hmem
+      rcases hp c1 m h with a | ⟨_, a2, _, _⟩
+      · exact I.i4 c1 m a hmem
+      · have := I.i8 m hmem; omega
+    · intro m hmem
+      rw [q10, t3] at hmem
+      rw [q2]
+      have := I.i8 m hmem; omega
+  · -- a phase 2 was accepted and acknowledged on `c`
+    obtain ⟨c0, ty0, k0, rr0, he0, _, hpc, _, hj⟩ := sp.rok hr
+    rw [he] at he0
+    simp only [Event.hs.injEq] at he0
+    obtain ⟨hc0, _, _, hrr0⟩ := he0
+    subst hc0
+    obtain ⟨_, _, hj | hj⟩ := hj
+    · obtain ⟨_, hh, _⟩ := hj; rw [he] at hh; cases hh
+    obtain ⟨ty1, key1, nr1, n1, he1, _, _, _, hres1, hp1, _⟩ := hj
+    rw [he] at he1
+    simp only [Event.hs.injEq, RespRef.hmac.injEq] at he1
+    obtain ⟨_, _, _, _, hnr⟩ := he1
+    subst hnr
+    rw [hres] at hres1
+    have hnn : n = n1 := by simpa using hres1
+    subst hnn
+    have hnot : ∀ c1 m, pend (s''.ctl c1) = some m → pend (s.ctl c1) = some m := by
+      intro c1 m h
+      rcases hp c1 m h with a | ⟨_, _, _, a4⟩
+      · exact a
+      · rcases a4 with a4 | a4 <;> rw [hr] at a4 <;> cases a4
+    refine ⟨g1, ?_, ?_, ?_, g5, g6, ?_⟩
+    · intro d m h
+      rw [q10, t1, t2] at h
+      rw [q2]
+      have := I.i2 d m h; omega
+    · intro c1 m h
+      rw [q10, t1, t2]
+      exact I.i3 c1 m (hnot c1 m h)
+    · intro c1 m h hmem
+      rw [q10, t3] at hmem
+      have hold := hnot c1 m h
+      rcases List.mem_cons.mp hmem with hm | hm
+      · subst hm
+        have := I.i5 c1 c m hold hp1
+        subst this
+        rw [q1, hpc] at h
+        cases h
+      · exact I.i4 c1 m hold hm
+    · intro m hmem
+      rw [q10, t3] at hmem
+      rw [q2]
+      rcases List.mem_cons.mp hmem with hm | hm
+      · subst hm; have := I.i1 c m hp1; omega
+      · have := I.i8 m hm; omega
+  · -- the clients learned nothing new
+    refine ⟨g1, ?_, ?_, ?_, g5, g6, ?_⟩
+    · intro d m h
+      rw [q10, t1, t2] at h
+      rw [q2]
+      have := I.i2 d m h; omega
+    · intro c1 m h
+      rw [q10, t1, t2]
+      rcases hp c1 m h with a | ⟨_, a2, _, _⟩
+      · exact I.i3 c1 m a
+      · subst a2
+        constructor
+        · intro d hd; have := I.i2 d _ (Or.inl hd); omega
+        · intro d hd; have := I.i2 d _ (Or.inr hd); omega
+    · intro c1 m h hmem
+      rw [q10, t3] at hmem
+      rcases hp c1 m h with a | ⟨_, a2, _, _⟩
+      · exact I.i4 c1 m a hmem
+      · have := I.i8 m hmem; omega
+    · intro m hmem
+      rw [q10, t3] at hmem
+      rw [q2]
+      have := I.i8 m hmem; omega
+
+theorem Inv.initial (now : Nat) (ips : List Nat) (nc burst : Nat) : Inv (Srv.init now ips nc burst) := by
+  refine ⟨?_, ?_, ?_, ?_, ?_, ?_, ?_⟩ <;> simp [Srv.init, pend]
